@@ -116,7 +116,8 @@ pub(super) fn normalize_frequencies(raw_frequencies: &RawFrequencies) -> Frequen
             continue;
         }
 
-        let normalized_frequency = f * u32::from(SCALING_FACTOR) / sum;
+        // `f * SCALING_FACTOR` overflows `u32` when `f` > 2^32 / 4095.
+        let normalized_frequency = u64::from(f) * u64::from(SCALING_FACTOR) / u64::from(sum);
         // SAFETY: `normalized_frequency <= SCALING_FACTOR`.
         *g = (normalized_frequency as u16).max(1);
 
